@@ -4,7 +4,7 @@
    different tree, or is rejected), all by evaluation of the two models. *)
 From Coq Require Import List NArith ZArith Bool Arith Lia.
 From Okv Require Import Model.Lit Model.Syntax Model.Comb Model.ParseLedger Model.Display Model.RoundTripSpec
-  Proofs.RoundTripLedger Proofs.RoundTripImage.
+  Proofs.RoundTripLedger.
 Import ListNotations.
 Open Scope N_scope.
 
@@ -74,7 +74,7 @@ Definition ex_ledger : list s_entry :=
     SInclude s_txt;
     STxn ex_txn_bare ].
 
-Example ex_ledger_wf : forallb wf_entry ex_ledger = true.
+Example ex_ledger_wf : wf_ledger ex_ledger = true.
 Proof. vm_compute. reflexivity. Qed.
 
 (* the round trip theorem applies, and evaluation agrees: the very same entries come back *)
@@ -225,7 +225,7 @@ Proof. vm_compute. reflexivity. Qed.
 Example bad_multiline_reread : reread [SComment [97]] = Some [SComment [97; 10]].
 Proof. vm_compute. reflexivity. Qed.
 
-(* ---- the open-parenthesis corner: outside wf_entry, in the parser's image, and read back ---- *)
+(* ---- the open-parenthesis corner: a payee that starts with ( without a code ---- *)
 (* "2024/02/29 (foo\n" *)
 Definition open_paren_text : str := [50; 48; 50; 52; 47; 48; 50; 47; 50; 57; 32; 40; 102; 111; 111; 10].
 Example open_paren_parsed :
@@ -234,11 +234,18 @@ Example open_paren_parsed :
   | _ => False
   end.
 Proof. vm_compute. reflexivity. Qed.
-Example open_paren_not_wf : forallb wf_entry (with_payee [40; 102; 111; 111]) = false.
+Example open_paren_wf : wf_ledger (with_payee [40; 102; 111; 111]) = true.
 Proof. vm_compute. reflexivity. Qed.
 Example open_paren_reread : reread (with_payee [40; 102; 111; 111]) = Some (with_payee [40; 102; 111; 111]).
 Proof. vm_compute. reflexivity. Qed.
-(* ... but a later `)` in the text turns the payee into a code: the condition is not local *)
+(* ... but a later `)` in the text turns the payee into a code: the condition of wf_ledger is
+   needed and is not local to the entry *)
+Example open_paren_later_close_not_wf :
+  wf_ledger (with_payee [40; 102; 111; 111] ++ with_payee [98; 41]) = false.
+Proof. vm_compute. reflexivity. Qed.
+Example open_paren_later_close_each_wf :
+  forallb wf_entry (with_payee [40; 102; 111; 111] ++ with_payee [98; 41]) = true.
+Proof. vm_compute. reflexivity. Qed.
 Example open_paren_not_local :
   reread (with_payee [40; 102; 111; 111] ++ with_payee [98; 41]) <>
   Some (with_payee [40; 102; 111; 111] ++ with_payee [98; 41]).
